@@ -69,7 +69,9 @@ func genC18(t *rapid.T) C18Case {
 		if rapid.IntRange(0, 9).Draw(t, "trailing") < 3 {
 			// a complete expression followed by more tokens
 			a := rapid.SampledFrom([]string{"1", "$x", "'s'", "f(1)", "[1, 2]", "$a.b", "true", "1 + 2"}).Draw(t, "head")
-			b := rapid.SampledFrom([]string{" 2 3", " $y", " )", " ]", " ,", " 'x' 'y' 'z'", " }", " |", " 1 2 3 4 5 6 7 8 9", " :", " @", " \x00"}).Draw(t, "tail")
+			b := rapid.SampledFrom([]string{" 2 3", " $y", " )", " ]", " ,", " 'x' 'y' 'z'", " }", " |", " 1 2 3 4 5 6 7 8 9", " :", " @", " \x00",
+				// many unread tokens (more than any buffer between scanner and parser would hold)
+				strings.Repeat(" 2", 70), strings.Repeat(" $x", 300), strings.Repeat(" ,", 130), strings.Repeat(" 'a'", 1000)}).Draw(t, "tail")
 			kind := rapid.SampledFrom([]string{"expr", "globals"}).Draw(t, "kind")
 			in := a + b
 			if kind == "globals" {
